@@ -38,7 +38,7 @@ class Sessions(Stage):
             k = d.int(0, 5)
             t += 1000
             ts = wire.timestamp(t, dialect)
-            if k == 0: extra.append(['line', gen_chatter(d) if d.chance(0.5) else d.choice(['\x1b[33mwarning:\x1b[0m colour used by the program', '\x1b[1mleft open', 'Gtk \x1b[31;1mCRITICAL\x1b[m x', '\x1b[0m'])])
+            if k == 0: extra.append(['line', gen_chatter(d) if d.chance(0.5) else d.choice(['\x1b[33mwarning:\x1b[0m colour used by the program', '\x1b[1mleft open', 'Gtk \x1b[31;1mCRITICAL\x1b[m x', '\x1b[0m', 'name\tvalue', 'PID\tCMD\t%CPU', 'a\t\tb c'])])
             elif k == 1: extra.append(['line', '%s%s -> wl_display%s1.error(?!, 2, "x")' % (ts, tag, sep)])          # Unknown argument
             elif k == 2: extra.append(['line', '%s%swl_display%s1.error(wl_surface%s98765, 1, "unresolved")' % (ts, tag, sep, sep)])   # unresolved object
             elif k == 3: extra.append(['line', '%s%swl_nonexistent%s4242.frob(new id [unknown]%s77)' % (ts, tag, sep, sep)])
@@ -62,6 +62,11 @@ class Sessions(Stage):
         # splice the extras at drawn positions
         for e in extra:
             items.insert(d.int(0, len(items)), e)
+        if d.chance(0.3):
+            # a connection known by a long window title (or layer-surface namespace), then the list of connections
+            title = d.choice(histgen.LONG_TITLES + ['Document 1 - a title of some forty-five characters', 'y' * d.int(30, 90)])
+            items.append(['line', '%s%s -> xdg_toplevel%s%d.set_title("%s")' % (wire.timestamp(t + 9000, dialect), tag, sep, 900 + d.int(0, 3), title)])
+            items.append(['cmd', d.choice(['connection', 'c', 'connection Q'])])
         return dict(specs=specs, dialect=dialect, items=items, filter=scripts.gen_matcher_text(d, g) if d.chance(0.3) else None,
                     brk=scripts.gen_matcher_text(d, g) if d.chance(0.3) else None, supress=d.chance(0.2))
 
